@@ -230,8 +230,20 @@ pub fn cmd_probe(args: &[String]) {
         }
         all
     };
+    // `--shard i/n`: this process handles the states whose index is congruent to i mod n (the two-MARK family
+    // belongs to shard 0); without the option everything is handled here
+    let shard = crate::arg_val(args, "--shard", "0/1");
+    let (shard_i, shard_n) = {
+        let mut it = shard.split('/');
+        let i: usize = it.next().and_then(|x| x.parse().ok()).unwrap_or(0);
+        let n: usize = it.next().and_then(|x| x.parse().ok()).unwrap_or(1).max(1);
+        (i % n, n)
+    };
     let no_memo: Vec<(usize, char)> = Vec::new();
     for b in "ldeci".chars() {
+        if shard_i != 0 {
+            break;
+        }
         for mid in seqs("ldecis", 2) {
             for top in seqs("ldecist", 2) {
                 let stack = format!("{}M{}M{}", b, mid, top);
@@ -241,7 +253,10 @@ pub fn cmd_probe(args: &[String]) {
             }
         }
     }
-    for stack in &stacks {
+    for (si, stack) in stacks.iter().enumerate() {
+        if si % shard_n != shard_i {
+            continue;
+        }
         let n = stack.chars().count();
         let memo_sizes: &[usize] = if n <= 2 { &[0, 1, 2, 255, 256, 257] } else { &[0, 256] };
         for &m in memo_sizes {
